@@ -20,6 +20,7 @@ import (
 	"io"
 	"net"
 	"strconv"
+	"sync"
 
 	"github.com/cybergarage/go-logger/log"
 	"github.com/cybergarage/go-redis/redis/auth"
@@ -41,6 +42,7 @@ type Server struct {
 	systemCommandHandler SystemCommandHandler
 	userCommandHandler   UserCommandHandler
 	commandExecutors     Executors
+	commandMutex         sync.Mutex
 }
 
 // NewServer returns a new server instance.
@@ -58,6 +60,7 @@ func NewServer() *Server {
 		systemCommandHandler: nil,
 		userCommandHandler:   nil,
 		commandExecutors:     Executors{},
+		commandMutex:         sync.Mutex{},
 	}
 	server.SetPort(DefaultPort)
 	server.registerCoreExecutors()
@@ -354,11 +357,20 @@ func (server *Server) handleMessage(conn *Conn, msg *proto.Message) (*Message, e
 		if err != nil {
 			return nil, err
 		}
-		return server.handleArrayMessage(conn, msg)
+		return server.executeArrayMessage(conn, msg)
 	case proto.ErrorMessage:
 		return nil, nil
 	}
 	return nil, nil
+}
+
+// executeArrayMessage executes a command request. Commands are executed one at a time
+// like Redis, so that every command, including the commands which are composed of
+// several handler operations, is atomic with respect to the other connections.
+func (server *Server) executeArrayMessage(conn *Conn, arrayMsg *proto.Array) (*Message, error) {
+	server.commandMutex.Lock()
+	defer server.commandMutex.Unlock()
+	return server.handleArrayMessage(conn, arrayMsg)
 }
 
 // responseMessage returns the response message to the request connection.
